@@ -42,7 +42,8 @@ fn main() {
                 workers,
                 cases_override: arg_after(&args, "--cases").and_then(|s| s.parse().ok()),
                 digests_file: arg_after(&args, "--digests"),
-                deadline_s: arg_after(&args, "--deadline").and_then(|s| s.parse().ok()).unwrap_or(if tier == "thorough" { 3000 } else { 600 }),
+                // wall-clock cap per part: workers stop taking new cases after it (reported in the evidence)
+                deadline_s: arg_after(&args, "--deadline").and_then(|s| s.parse().ok()).unwrap_or(if tier == "thorough" { 420 } else { 150 }),
                 only_part: arg_after(&args, "--part"),
                 profile: profile().to_string(),
             };
@@ -96,6 +97,10 @@ fn main() {
                 }
             }
             0
+        }
+        "jobdigest" => {
+            let hs = args.get(2).and_then(|s| s.parse().ok()).unwrap_or(1);
+            engines::compile::jobdigest_main(hs, args.get(3).map(|s| s.as_str()).unwrap_or("[]"))
         }
         "hashprobe" => {
             // selftest helper: shows that the hash-seed seam is effective
